@@ -107,13 +107,16 @@ func (a CommandBasedAuthorizer) evaluate() bool {
 			if len(regexish) == 0 {
 				continue
 			}
-			// guard against regexes that are not anchored to the start and end of the string
-			if regexish[0] != regexStartByte {
-				regexish = regexStartStr + regexish
+			// the expression must be valid on its own; wrapping an unbalanced one could turn it
+			// into something valid with another meaning
+			if _, err := regexp.Compile(regexish); err != nil {
+				a.Errorf(a.ctx, "bad regex detected; %v", err)
+				return false
 			}
-			if regexish[len(regexish)-1] != regexEndByte {
-				regexish = regexish + regexEndStr
-			}
+			// guard against regexes that are not anchored to the start and end of the string.  the whole
+			// expression is wrapped in a group so that every alternative of it is anchored, not only the
+			// first one at the start and the last one at the end
+			regexish = regexStartStr + "(?:" + regexish + ")" + regexEndStr
 			if matched, err := regexp.MatchString(regexish, a.body.Args.CommandArgsNoLE()); err != nil {
 				a.Errorf(a.ctx, "bad regex detected; %v", err)
 				return false
